@@ -14,7 +14,7 @@ RULE = {"C17": "per sensor model: all 4096 ADC codes (v = code*5/4096) through A
                "inside/outside the range. Non-trivial = voltage > 0 whose power-law value lies strictly inside the range "
                "(the law, not the clamp, decides) or a sim distance inside the range; distinct = distinct (model, input)."}
 RULE["C17"] += '  Readings at or below 0 V must be the far end of the range (monotonicity); sub-LSB voltage steps; replays feed the recent input history first.'
-REQUIRED = {"C17": {"analog-input-oversampling-on": 50, "five-volt-rail-off-nominal": 100, "first-reading-of-a-new-driver-object": 60, "driver-built-through-its-older-name": 5, "near-pair": 300, "adc-code": 3 * 4096, "special-double": 60, "random-double": 3000, "in-range-law-checked": 3000,
+REQUIRED = {"C17": {"same-voltage-read-hundreds-of-times": 2000, "analog-input-oversampling-on": 50, "five-volt-rail-off-nominal": 100, "first-reading-of-a-new-driver-object": 60, "driver-built-through-its-older-name": 5, "near-pair": 300, "adc-code": 3 * 4096, "special-double": 60, "random-double": 3000, "in-range-law-checked": 3000,
                     "clamped-low": 100, "clamped-high": 100, "monotone-pair": 10000, "sim-roundtrip": 600,
                     "sim-outside-range": 100, "sim-fresh-helper": 50, "sim-raw-write-between": 50}}
 ASSUMPTIONS = {"C17": ["AnalogInputSim.setVoltage passes any double unchanged to AnalogInput.getVoltage (probed: yes, incl. inf and negatives)"]}
@@ -52,6 +52,9 @@ def sensors():
     return _SENSORS
 
 
+_PORT = [3]
+
+
 def check_fresh(acc, name, v, via_alias=False):
     """The very first reading of a brand-new driver object (and, for sim round trips, a brand-new helper on it)."""
     import gc
@@ -67,7 +70,8 @@ def check_fresh(acc, name, v, via_alias=False):
         acc.ev("driver-built-through-its-older-name")
     s = sim = helper = None
     try:
-        s = cls(5)
+        _PORT[0] = 3 + (_PORT[0] - 2) % 5          # ports 3..7 in turn: a new object rarely sits where the last one sat
+        s = cls(_PORT[0])
         sim = AnalogInputSim(s.distance)
         sim.setVoltage(v)
         d = s.getDistance()
@@ -170,6 +174,22 @@ def _check_voltage(acc, name, v, kind, rail):
     return d
 
 
+def check_repeat(acc, name, v, count):
+    c, e, lo, hi = MODELS[name]
+    s, sim, _h = sensors()[name]
+    sim.setVoltage(v)
+    want = min(max(c * math.pow(v, e), lo), hi)
+    acc.evaluations += 1
+    for k in range(count):
+        d = s.getDistance()
+        acc.checks += 1
+        if not isinstance(d, float) or abs(d - want) > 1e-9 * want:
+            acc.violation("C17/power-law", f"{name}: reading #{k + 1} of the unchanged voltage {v!r} is {d!r}, expected {want!r}",
+                          {"mode": "repeat", "model": name, "v_bits": struct.pack(">d", v).hex(), "count": k + 1}, {})
+            return
+    acc.ev("same-voltage-read-hundreds-of-times", count)
+
+
 def check_monotone(acc, name, pairs):
     """pairs: list of (v, d) - reading must never increase as the voltage increases."""
     pairs = sorted((p for p in pairs if p[1] is not None), key=lambda p: p[0])
@@ -196,12 +216,15 @@ def check_sim(acc, name, x, fresh_helper=False, raw_between=None):
         rawsim.setVoltage(raw_between)
         acc.ev("sim-raw-write-between")
     hist = _RECENT.setdefault("all", [])
+    nset = _RECENT.setdefault("nset", {})
     case = {"mode": "sim", "model": name, "x_bits": struct.pack(">d", float(x)).hex(), "is_int": isinstance(x, int), "history": list(hist),
+            "n_prior_sets": nset.get(name, 0),
             "fresh_helper": fresh_helper, "raw_between": raw_between}
     hist.append(["d", struct.pack(">d", float(x)).hex(), name])
     del hist[:-HIST]
     acc.evaluations += 1
     acc.ev("sim-roundtrip")
+    nset[name] = nset.get(name, 0) + 1
     try:
         helper.setDistance(x)
         back = helper.getDistance()
@@ -275,6 +298,9 @@ def run_shard(spec):
                     v2 = v + rng.choice([1e-6, 1e-5, 1e-4, 5e-4, 9e-4, -1e-4, -5e-4])
                     pairs.append((v2, check_voltage(acc, name, v2, "near-pair")))
             check_monotone(acc, name, pairs)
+            # a stationary target: the very same voltage read many hundreds of times in a row
+            v0 = {"SharpIR2Y0A02": 1.1, "SharpIR2Y0A21": 0.9, "SharpIR2Y0A41": 0.7}[name]
+            check_repeat(acc, name, v0, 700)
         acc.samples.append({"model": "SharpIR2Y0A21", "random_voltages_head": [repr(p[0]) for p in pairs[:5]]})
     else:
         for name, (c, e, lo, hi) in MODELS.items():
@@ -328,9 +354,20 @@ def _replay_once(case, cross_model_first):
                     s.getDistance()
                 except Exception:  # noqa
                     pass
+    if case.get("mode") == "sim" and not case.get("fresh_helper"):
+        # the helper object had already been used that often (state that only changes after hundreds of calls)
+        helper = sensors()[case["model"]][2]
+        for k in range(max(0, case.get("n_prior_sets", 0) - sum(1 for h in case.get("history", ()) if h[0] == "d" and h[2] == case["model"]))):
+            try:
+                helper.setDistance(20.0 + (k % 7))
+            except Exception:  # noqa
+                pass
     _feed_history(case)
     _RECENT.clear()
-    if case["mode"] == "fresh":
+    if case["mode"] == "repeat":
+        v = struct.unpack(">d", bytes.fromhex(case["v_bits"]))[0]
+        check_repeat(acc, case["model"], v, case["count"])
+    elif case["mode"] == "fresh":
         v = struct.unpack(">d", bytes.fromhex(case["v_bits"]))[0]
         check_fresh(acc, case["model"], v, case.get("via_alias", False))
     elif case["mode"] == "voltage":
